@@ -577,6 +577,26 @@ impl World {
                 let mut opts = crate::util::request_options(a.rp_id.as_deref(), &a.challenge, allow, a.uv);
                 let (ext, r1, r2) = self.ext_inputs(None, &a.prf);
                 opts.public_key.extensions = ext;
+                // the members of a get() request a relying party may set freely (derived from the challenge,
+                // so that every check sharing this workload sees the same requests): timeout, hints,
+                // attestation preference and formats
+                {
+                    let m = crate::rng::fnv(&a.challenge);
+                    if m % 2 == 0 {
+                        opts.public_key.timeout = [None, Some(0), Some(1), Some(u32::MAX)][((m >> 8) % 4) as usize];
+                        opts.public_key.hints = match (m >> 12) % 3 {
+                            1 => Some(vec![]),
+                            2 => Some(vec![webauthn::PublicKeyCredentialHints::SecurityKey, webauthn::PublicKeyCredentialHints::Hybrid]),
+                            _ => None,
+                        };
+                        opts.public_key.attestation = [webauthn::AttestationConveyancePreference::None, webauthn::AttestationConveyancePreference::Indirect, webauthn::AttestationConveyancePreference::Direct, webauthn::AttestationConveyancePreference::Enterprise][((m >> 16) % 4) as usize];
+                        opts.public_key.attestation_formats = match (m >> 20) % 3 {
+                            1 => Some(vec![]),
+                            2 => Some(vec![webauthn::AttestationStatementFormatIdentifiers::Packed, webauthn::AttestationStatementFormatIdentifiers::None]),
+                            _ => None,
+                        };
+                    }
+                }
                 rb = r1;
                 rbh = r2;
                 let uu = url(&a.origin.web_url());
